@@ -215,6 +215,44 @@ def rule_live(env, shared):
         else:
             out.append(Ob("LIVE.c", k, "ok", b.file_line(), "every normal path from the admission to a return releases the ticket",
                           True))
+    # (e) a reserved ticket is never abandoned: the waiting functions return None only when the ticket has been passed
+    #     (Less), the end flag is set, or after they were admitted (and released)
+    for (b, sa) in T.universe:
+        if F.impl_self_adt(b) != T.adt or b.is_closure:
+            continue
+        ctx = env.ctx(b, sa, T.world)
+        # only functions that wait: they contain a load of the now-serving counter of their own
+        own_loads = [e for e in T.direct_events(b, sa) if e.kind == "atomic" and e.info["op"] == "load"
+                     and T.role_of(e.info["place"])[0] == "serving" and owner_of(env, e, b).def_ == b.def_]
+        if not own_loads:
+            continue
+        k = "LIVE.e|%s" % env.fname(b)
+        bad = None
+        for bi, blk in enumerate(b.blocks):
+            if blk["cleanup"]:
+                continue
+            for st in blk["stmts"]:
+                if st["k"] == "assign" and st["rv"]["k"] == "aggregate" and st["rv"].get("variant_name") == "None" \
+                        and st["rv"]["adt"].endswith("Option"):
+                    fs = block_facts(ev, ctx, bi)
+                    okk = False
+                    for f in fs:
+                        if f[0] == "lt" and len(f) == 3 and f[2][0] == "atomic" and T.role_of(f[2][2])[0] == "serving":
+                            okk = True
+                        if f[0] == "flag" and f[2] is True and T.role_of(f[1])[0] == "done":
+                            okk = True
+                        if f[0] == "eq" and len(f) == 3 and any(z[0] == "atomic" for z in (f[1], f[2])):
+                            okk = True  # admitted: LIVE.c requires the release
+                    if not okk:
+                        bad = b.file_line(st["loc"])
+        if bad:
+            out.append(Ob("LIVE.e", k, "viol", bad,
+                          "%s gives up a reserved ticket (returns None) although the ticket was neither passed, nor the end "
+                          "flag set, nor the caller admitted: the now-serving counter can never get past this ticket and every "
+                          "holder of a later ticket spins forever" % env.fname(b)))
+        else:
+            out.append(Ob("LIVE.e", k, "ok", b.file_line(), "None only when the ticket was passed, the end flag is set, or after "
+                          "admission", True))
     # (d) results of admitting calls are continued
     for (b, sa) in T.universe:
         ctx = env.ctx(b, sa, T.world)
